@@ -195,11 +195,37 @@ func (c *Ctx) declareFun(name string, args []Sort, ret Sort) {
 		c.decls = append(c.decls, "(declare-fun gstr.fromByte (Int) Str)")
 		c.declared["gstr.fromByte"] = SStr
 		c.asserts = append(c.asserts, &Assertion{Seq: 0, Always: true, Text: "(forall ((ba (Array Int Int)) (bo Int)) (! (= (gbytes.str ba bo 1) (gstr.fromByte (select ba bo))) :pattern ((gbytes.str ba bo 1))))"})
+		// byte j of the content of a byte slice is element j of the slice
+		if _, ok := c.declared["gstr.at"]; !ok {
+			c.decls = append(c.decls, "(declare-fun gstr.at (Str Int) Int)")
+			c.declared["gstr.at"] = SInt
+		}
+		c.asserts = append(c.asserts, &Assertion{Seq: 0, Always: true, Text: "(forall ((ba (Array Int Int)) (bo Int) (bn Int) (bj Int)) (! (=> (and (<= 0 bj) (< bj bn)) (= (gstr.at (gbytes.str ba bo bn) bj) (select ba (+ bo bj)))) :pattern ((gstr.at (gbytes.str ba bo bn) bj))))"})
 	}
 	if name == "gstr.cat" {
 		// the only interpreted fact about concatenation: lengths add up
 		c.asserts = append(c.asserts, &Assertion{Seq: 0, Always: true, Text: "(forall ((ca Str) (cb Str)) (! (= (gstr.len (gstr.cat ca cb)) (+ (gstr.len ca) (gstr.len cb))) :pattern ((gstr.cat ca cb))))"})
 	}
+}
+
+// declareBE declares the big-endian codec of width w ("32", "16") with its two facts (A-CODEC): decoding an encoding
+// gives the number back on the type's range, and an encoding has the fixed length.
+func (c *Ctx) declareBE(w string) {
+	enc, dec := "be"+w+".enc", "be"+w+".dec"
+	if _, ok := c.declared[enc]; ok {
+		return
+	}
+	c.declareFun(enc, []Sort{SInt}, SStr)
+	c.declareFun(dec, []Sort{SStr}, SInt)
+	limit, n := "4294967296", "4"
+	if w == "16" {
+		limit, n = "65536", "2"
+	}
+	c.asserts = append(c.asserts, &Assertion{Seq: 0, Always: true, Text: fmt.Sprintf(
+		"(forall ((bx Int)) (! (and (= (gstr.len (%s bx)) %s) (=> (and (<= 0 bx) (< bx %s)) (= (%s (%s bx)) bx))) :pattern ((%s bx))))", enc, n, limit, dec, enc, enc)})
+	// a decoded value is a number of the type
+	c.asserts = append(c.asserts, &Assertion{Seq: 0, Always: true, Text: fmt.Sprintf(
+		"(forall ((bs Str)) (! (and (<= 0 (%s bs)) (< (%s bs) %s)) :pattern ((%s bs))))", dec, dec, limit, dec)})
 }
 
 func (c *Ctx) fresh(hint string, sort Sort) *Term {
